@@ -870,28 +870,40 @@ Proof.
   - intros st u. rewrite decode_all_ok. simpl. apply fold_res_nonnil; intros; rewrite proc_topic_g_ok; reflexivity.
 Qed.
 
-(* the handler-side merge: a null channel inside a selected topic is a recovered panic (500),
-   never a crash *)
-
-Lemma merge_fold_g : forall l cs,
-  fold_res (fun cs pc => match pc with Some c => Ok (merge_chan cs c) | None => Recovered end) l cs =
-  if existsb is_nil l then Recovered else Ok (fold_left merge_chan (nonnil l) cs).
+(* the handler-side merge: a null channel among the selected topic's channels is a recovered
+   panic (500) unless it is the only channel there is; never a crash *)
+Lemma merge_chan_nonempty : forall cs c, merge_chan cs c <> [].
 Proof.
-  induction l as [|pc l IH]; intro cs; simpl. reflexivity.
+  intros cs c. unfold merge_chan. destruct (existsb _ cs) eqn:E.
+  - destruct cs; [discriminate|]. discriminate.
+  - destruct cs; discriminate.
+Qed.
+Lemma merge_g_after_nil : forall l cs, fold_res merge_g l (cs, true) = match l with [] => Ok (cs, true) | _ => Recovered end.
+Proof. intros [|x l] cs; reflexivity. Qed.
+Lemma merge_g_nonempty : forall l cs, cs <> [] ->
+  fold_res merge_g l (cs, false) = if existsb is_nil l then Recovered else Ok (fold_left merge_chan (nonnil l) cs, false).
+Proof.
+  induction l as [|pc l IH]; intros cs Hne; simpl. reflexivity.
   destruct pc as [c|]; simpl.
-  - rewrite IH. reflexivity.
-  - reflexivity.
+  - unfold merge_g at 1. simpl. apply IH. apply merge_chan_nonempty.
+  - unfold merge_g at 1. simpl. destruct cs; [contradiction|reflexivity].
 Qed.
-Lemma tagg_add_g_spec : forall t a,
-  tagg_add_g t a = if existsb is_nil (tn_chans a) then Recovered else Ok (tagg_add t a).
+Lemma merge_g_spec : forall l,
+  fold_res merge_g l ([], false) =
+  if existsb is_nil l then (match l with [None] => Ok ([], true) | _ => Recovered end)
+  else Ok (fold_left merge_chan (nonnil l) [], false).
 Proof.
-  intros t a. unfold tagg_add_g. rewrite merge_fold_g. destruct (existsb is_nil (tn_chans a)); reflexivity.
+  intros [|pc l]. reflexivity.
+  destruct pc as [c|]; simpl.
+  - unfold merge_g at 1. simpl. rewrite merge_g_nonempty by apply merge_chan_nonempty.
+    destruct (existsb is_nil l) eqn:E; [|reflexivity]. destruct l; reflexivity.
+  - unfold merge_g at 1. simpl. rewrite merge_g_after_nil. destruct l; reflexivity.
 Qed.
-Theorem tagg_fold_g_spec : forall nodes t,
-  fold_res tagg_add_g nodes t = if has_null_chan nodes then Recovered else Ok (fold_left tagg_add nodes t).
+
+Lemma no_nil_nonnil_flat : forall nodes, flat_map (fun a => nonnil (tn_chans a)) nodes = nonnil (chans_seq nodes).
 Proof.
-  induction nodes as [|a nodes IH]; intro t; simpl. reflexivity.
-  rewrite tagg_add_g_spec. destruct (existsb is_nil (tn_chans a)); simpl. reflexivity. apply IH.
+  unfold chans_seq, nonnil. induction nodes as [|a nodes IH]; simpl. reflexivity.
+  rewrite flat_map_app. f_equal. exact IH.
 Qed.
 
 (* ------------------------------------------------------------------ the views *)
@@ -920,14 +932,26 @@ Theorem topic_view_spec : forall producers stats_of t,
   | AOk ps n1 =>
       match nsqd_stats_pure (map (fun p => (p, stats_of p)) ps) t with
       | AHard => Ok (VStatus 502)
-      | AOk st n2 => if has_null_chan (fst st) then Recovered
+      | AOk st n2 => if null_chan_panics (fst st) then Recovered
                      else Ok (VOk (tagg_of (fst st)) (warn_of n1 || warn_of n2))
       end
   end.
 Proof.
   intros. unfold topic_view. rewrite two_stage_spec. destruct producers as [|ps n1]. reflexivity.
   destruct (nsqd_stats_pure _ t) as [|st n2]. reflexivity.
-  rewrite tagg_fold_g_spec. destruct (has_null_chan (fst st)); reflexivity.
+  unfold null_chan_panics. fold (chans_seq (fst st)). rewrite merge_g_spec.
+  fold (tagg_of (fst st)).
+  destruct (existsb is_nil (chans_seq (fst st))) eqn:E.
+  - destruct (chans_seq (fst st)) as [|[c|] [|y l]] eqn:Es; try reflexivity.
+    (* the single null: nothing is merged, the aggregate has no channel *)
+    simpl. f_equal. f_equal.
+    assert (ta_chans (tagg_of (fst st)) = []) as Hc.
+    { unfold tagg_of. rewrite tagg_fold_chans. rewrite no_nil_nonnil_flat. rewrite Es. reflexivity. }
+    destruct (tagg_of (fst st)) as [a b c d]. simpl in *. rewrite Hc. reflexivity.
+  - simpl. f_equal. f_equal.
+    assert (ta_chans (tagg_of (fst st)) = fold_left merge_chan (nonnil (chans_seq (fst st))) []) as Hc.
+    { unfold tagg_of. rewrite tagg_fold_chans. rewrite no_nil_nonnil_flat. reflexivity. }
+    destruct (tagg_of (fst st)) as [a b c d]. simpl in *. rewrite Hc. reflexivity.
 Qed.
 
 Theorem channel_view_spec : forall producers stats_of t c,
@@ -983,7 +1007,7 @@ Theorem views_never_crash :
 Proof.
   repeat split.
   - intros. rewrite topic_view_spec. destruct producers; [discriminate|].
-    destruct (nsqd_stats_pure _ t); [discriminate|]. destruct (has_null_chan _); discriminate.
+    destruct (nsqd_stats_pure _ t); [discriminate|]. destruct (null_chan_panics _); discriminate.
   - intros. rewrite channel_view_spec. destruct producers; [discriminate|].
     destruct (nsqd_stats_pure _ t); [discriminate|]. destruct (cmap_find c _); discriminate.
   - intros. rewrite counter_view_spec. destruct producers; [discriminate|].
